@@ -147,6 +147,9 @@ class LibMixin:
                 return self.cont_call(t, m, o)
             if m == 'pop' and not args: return self.cont_call(t, 'pop_back', o)                 # std::stack
             if m == 'top' and not args: m = 'back'                                             # std::stack
+            if m in ('emplace', 'emplace_back') and not [x for x in args if x.get('kind') != 'CXXDefaultArgExpr'] and t.elem.kind in ('vec', 'rec'):
+                self.rules['emplace()->push_back(default)'] += 1
+                return self.cont_call(t, 'push_back', o, [self.construct(t.elem, [], n)])      # std::stack / vector ::emplace() of a default-constructed element
             if m in ('push', 'emplace') and len(args) == 1 and self.same_c(args[0], t.elem):  # std::stack
                 return self.cont_call(t, 'push_back', o, [self.expr(args[0], rvalue=True)])
             if m == 'resize' and t.elem.kind == 'scalar' and 1 <= len([x for x in args if x.get('kind') != 'CXXDefaultArgExpr']) <= 2:
